@@ -3,21 +3,22 @@ import NmVerif.Arr
 /-
   NmVerif.Index.Slice — MODEL of include/nmtools/array/index/slice.hpp and SPEC (Python / NumPy basic indexing).
 
-  MODEL (mirrors the C++ case analysis branch for branch, including its defects):
-    compute_range (slice.hpp:35)   `computeRange`
-    compute_step  (slice.hpp:93)   `computeStep`
-    ceil(float(range)/step)        `lengthOf` through an exact binary32 emulation `f32Round` (slice.hpp:473, 992;
-                                    platform/math/constexpr.hpp `constexpr_ceil<int>`)
-    compute_index (slice.hpp:106)  `computeIndex`
+  MODEL (mirrors the C++ branch for branch; state of the headers after the `fix:` commits C05-slice-indices,
+  C05-length-integer-ceil, C05-trailing-axes, C05-trailing-empty-ellipsis, C05-single-range-ctad):
+    slice_indices                  `sliceIndices`   normalised (start, stop, step): None ↦ default for the sign of step,
+                                                    negative ↦ +n, clamp into [lower, upper]
+    compute_range / compute_step   `computeRange`, `computeStep`
+    (s + step - 1) / step          `lengthOf`       integer ceiling
+    compute_index                  `computeIndex`   start + i*step
     shape_slice / slice            `shapeSlice` / `sliceIdx`               (packed: variadic / tuple of typed parts)
     shape_dynamic_slice / dynamic_slice   `shapeDynamicSlice` / `dynamicSlice`   (list of either / array<int,3>)
-    view::slice(array, s...)       `ctadCollapse` (the `nmtools_tuple{slices...}` copy-deduction), `sliceView`
+    view::slice / apply_slice      `sliceView`, `dynamicSliceView`
 
   Machine arithmetic.  The harness instantiates the functions as the views do: shape and indices are `size_t`
-  containers, slice parts are `int`.  Values are modelled as `Int`; `u64` / `i32` are the conversions the C++ performs
-  (`size_t` arithmetic wraps mod 2^64, `static_cast<int>` / `promote_index_t<int,size_t> = int` truncate to 32 bit).
-  `none` = the C++ has undefined behaviour or throws (float → int overflow, division by zero, reading past the shape,
-  negative resize); everything else is the value the code computes, garbage included.
+  containers, slice parts are `int`.  `slice_indices` works in `make_signed_t<size_t>` (64 bit); values are modelled as
+  unbounded `Int`, which is the C++ value as long as extents stay below 2^62 (part of `Dom`) and slice parts are `int`.
+  `u64` is the conversion to `size_t`.  `none` = the C++ has undefined behaviour or throws (division by zero for step 0,
+  reading past the shape, negative resize); everything else is the value the code computes.
 
   Core Lean only (linked into the driver).
 -/
@@ -34,135 +35,45 @@ inductive Entry where
 /-! ### machine integers -/
 
 def u64 (x : Int) : Int := x % 18446744073709551616
-def i32 (x : Int) : Int := (x + 2147483648) % 4294967296 - 2147483648
 def absI (x : Int) : Int := if x < 0 then -x else x
 
-/-! ### compute_range / compute_step -/
+/-! ### slice_indices / compute_range / compute_step / compute_index -/
 
-/-- the `stop` lambda of `compute_range`: `None ↦ si`, else `min(stop_, (int)si)` (stop_type = int) -/
-def stopForRange (si : Int) : Option Int → Int
-  | none => si
-  | some sp => if sp < i32 si then sp else i32 si
+/-- `slice_indices(si, start, stop, step)`: normalised `(start, stop, step)` -/
+def sliceIndices (n : Int) (a b c : Option Int) : Int × Int × Int :=
+  let step : Int := match c with | none => 1 | some k => k
+  let lower : Int := if step < 0 then -1 else 0
+  let upper : Int := if step < 0 then n - 1 else n
+  let adjust : Int → Int := fun v =>
+    let b := if v < 0 then v + n else v
+    if b < lower then lower else if b > upper then upper else b
+  let start := match a with | none => (if step < 0 then upper else lower) | some v => adjust v
+  let stop := match b with | none => (if step < 0 then lower else upper) | some v => adjust v
+  (start, stop, step)
 
-/-- `compute_range(si, start, stop, step)`; the value of the C++ result (a `size_t` for the branches with a `None`
-    bound, an `int` when both bounds are integers). -/
+/-- `compute_range`: distance walked from start to stop, 0 when the slice is empty (a `size_t`) -/
 def computeRange (si : Int) (start stop step : Option Int) : Int :=
-  let sp := stopForRange si stop
-  match start, stop with
-  | none, none => si
-  | some st, none =>
-    match step with
-    | some k => u64 (if k < 0 ∧ st ≥ 0 then st + 1 else si - st)
-    | none => u64 (si - st)
-  | none, some sp_ => u64 (if sp_ < 0 then si + sp_ else sp)
-  | some st, some _ =>
-    i32 (if sp < 0 ∧ st < 0 then (si - absI sp) - (si - absI st)
-         else if sp < 0 ∧ st ≥ 0 then (si - absI sp) - st
-         else if sp ≥ 0 ∧ st < 0 then sp - (si - absI st)
-         else if sp > st then sp - st else st - sp)
+  let s := sliceIndices si start stop step
+  let r := if s.2.2 < 0 then s.1 - s.2.1 else s.2.1 - s.1
+  if r < 0 then 0 else r
 
 /-- `compute_step`: `None ↦ 1`, else `|step|` -/
 def computeStep : Option Int → Int
   | none => 1
   | some k => absI k
 
-/-! ### binary32 emulation of `ceil(float(range) / step)` -/
-
-/-- round half to even: `m + r/d` with `0 ≤ r < d` -/
-def rhe (m r d : Nat) : Nat := if 2 * r > d ∨ (2 * r = d ∧ m % 2 = 1) then m + 1 else m
-
-/-- `(float)a` for a non-negative integer `a < 2^64`, as an exact integer value -/
-def f32OfNat (a : Nat) : Nat :=
-  if a < 16777216 then a else
-  let e := a.log2 - 23
-  rhe (a / 2 ^ e) (a % 2 ^ e) (2 ^ e) * 2 ^ e
-
-/-- least `t` (searched upwards from `t`) with `2^23 ≤ ⌊x·2^t / k⌋` -/
-def findT (x k : Nat) : Nat → Nat → Nat
-  | 0, t => t
-  | fuel + 1, t => if x * 2 ^ t / k ≥ 8388608 then t else findT x k fuel (t + 1)
-
-/-- binary32 quotient `fl(x / k)` for `0 < x`, `x / k < 2^24`: the pair `(m, t)` stands for `m / 2^t` -/
-def f32DivSmall (x k : Nat) : Nat × Nat :=
-  let t := findT x k 64 0
-  (rhe (x * 2 ^ t / k) (x * 2 ^ t % k) k, t)
-
-/-- binary32 quotient `fl(x / k)` for `x / k ≥ 2^24` (an integer) -/
-def f32DivBig (x k : Nat) : Nat :=
-  let e := (x / k).log2 - 23
-  let d := k * 2 ^ e
-  rhe (x / d) (x % d) d * 2 ^ e
-
-/-- `⌈fl(x / k)⌉` -/
-def f32DivCeil (x k : Nat) : Nat :=
-  if x = 0 then 0
-  else if x / k < 16777216 then
-    let q := f32DivSmall x k
-    (q.1 + 2 ^ q.2 - 1) / 2 ^ q.2
-  else f32DivBig x k
-
-/-- `⌊fl(x / k)⌋` -/
-def f32DivFloor (x k : Nat) : Nat :=
-  if x = 0 then 0
-  else if x / k < 16777216 then
-    let q := f32DivSmall x k
-    q.1 / 2 ^ q.2
-  else f32DivBig x k
-
-/-- `static_cast<size_type>(constexpr_ceil<int>(static_cast<float>(s) / step))` for a range `s` (unsigned or int value)
-    and `step = compute_step(..)`.  `none`: division by zero or float → int conversion out of range (UB), or a step that
-    is not exactly representable (not modelled). -/
+/-- `static_cast<size_type>((s + step - 1) / step)`; `none`: division by zero -/
 def lengthOf (s : Int) (k : Int) : Option Int :=
-  if k ≤ 0 ∨ k ≥ 16777216 then none else
-  if s ≥ 0 then
-    let c := f32DivCeil (f32OfNat s.toNat) k.toNat
-    if c < 2147483648 then some (c : Int) else none
-  else
-    let c := f32DivFloor (f32OfNat (-s).toNat) k.toNat   -- (int) truncates towards zero; `f > i` is false for negative f
-    if c ≤ 2147483648 then some (u64 (-(c : Int))) else none
+  if k ≤ 0 then none else some ((s + k - 1) / k)
 
 /-- extent of the sliced axis as `shape_slice` / `shape_dynamic_slice` compute it -/
 def sliceLen (si : Int) (start stop step : Option Int) : Option Int :=
   lengthOf (computeRange si start stop step) (computeStep step)
 
-/-! ### compute_index -/
-
-/-- the `stop` lambda of `compute_index`: clipped into `[-si, si]` in `int` -/
-def stopForIndex (si : Int) : Option Int → Int
-  | none => si
-  | some sp =>
-    let s := if sp < i32 si then sp else i32 si
-    if s > i32 (-si) then s else i32 (-si)
-
-/-- `compute_index(indices, si, start, stop, step, i_i)` with `size_t` indices: source index of destination index `i` -/
+/-- `compute_index`: `(result_t)(start + index * step)` with `size_t` indices -/
 def computeIndex (si : Int) (start stop step : Option Int) (i : Int) : Int :=
-  let sp := stopForIndex si stop
-  u64 (match start, stop, step with
-  | none, none, none => i
-  | some st, none, none => (if st ≥ 0 then st else sp - st) + i
-  | some st, some _, none =>
-    (if st ≥ 0 ∧ sp > 0 then st
-     else if st < 0 ∧ sp > 0 then sp + st
-     else if st ≥ 0 ∧ sp < 0 then st
-     else si + st) + i
-  | some st, some _, some k =>
-    (if st ≥ 0 ∧ sp ≥ 0 ∧ k < 0 then (if sp > 0 then sp - 1 else st)
-     else if st < 0 ∧ sp > 0 ∧ k < 0 then sp + st
-     else if st ≥ 0 ∧ sp < 0 ∧ k < 0 then st
-     else if st < 0 ∧ sp < 0 ∧ k < 0 then si + st - 1
-     else if st ≥ 0 ∧ sp > 0 ∧ k > 0 then st
-     else if st < 0 ∧ sp > 0 ∧ k > 0 then sp + st
-     else if st ≥ 0 ∧ sp < 0 ∧ k > 0 then st
-     else si + st) + i * k
-  | none, some _, none => i
-  | none, some _, some k =>
-    (if sp > 0 ∧ k > 0 then 0 else if sp > 0 ∧ k < 0 then si else 0) + i * k
-  | none, none, some k => (if k < 0 then si - 1 else 0) + i * k
-  | some st, none, some k =>
-    (if st ≥ 0 ∧ k > 0 then st
-     else if st ≥ 0 ∧ k < 0 then st
-     else if st < 0 ∧ k > 0 then si + st
-     else st) + i * k)
+  let s := sliceIndices si start stop step
+  u64 (s.1 + i * s.2.2)
 
 /-- integer entry: `slice < 0 ? si - abs(slice) : slice` in `size_t` -/
 def intIndex (si : Int) (k : Int) : Int := u64 (if k < 0 then si - absI k else k)
@@ -198,13 +109,13 @@ def padZeros (len : Nat) (l : List Nat) : Option (List Nat) :=
 
 /-! ### packed encoding: shape_slice / slice -/
 
-/-- the `template_for` loop of `shape_slice`; `nEll` = number of axes an ellipsis takes, `sh` = shape from the active
-    shape index on -/
+/-- the `template_for` loop of `shape_slice` followed by the loop that keeps the unaddressed trailing axes whole;
+    `nEll` = number of axes an ellipsis takes, `sh` = shape from the active shape index on -/
 def shapeGo (nEll : Nat) : List Nat → List Entry → Option (List Nat)
-  | _, [] => some []
-  | [], _ :: _ => none      -- `size_t si = at(shape, s_i)` is read for every entry, also for an ellipsis taking no axis
+  | sh, [] => some sh
   | sh, .ellipsis :: es =>
     if nEll ≤ sh.length then (shapeGo nEll (sh.drop nEll) es).map (sh.take nEll ++ ·) else none
+  | [], _ :: _ => none      -- an integer or range entry without an axis (reads past the shape / the result)
   | _ :: t, .int _ :: es => shapeGo nEll t es
   | si :: t, e :: es =>
     match e.len si with
@@ -218,14 +129,14 @@ def shapeSlice (shape : List Nat) (es : List Entry) : Option (List Nat) :=
   else if es.length - 1 > dim then none               -- ellipsis count dim-(N-1) wraps
   else (shapeGo (dim - (es.length - 1)) shape es).bind (padZeros (dim - numInt es))
 
-/-- the `template_for` loop of `slice` -/
+/-- the `template_for` loop of `slice` followed by the copy of the remaining destination indices -/
 def idxGo (nEll : Nat) : List Nat → List Nat → List Entry → Option (List Nat)
-  | _, _, [] => some []
-  | [], _, _ :: _ => none   -- `size_t si = at(shape, s_i)` is read for every entry
+  | sh, ix, [] => some (ix.take sh.length)
   | sh, ix, .ellipsis :: es =>
     if nEll ≤ sh.length ∧ nEll ≤ ix.length then
       (idxGo nEll (sh.drop nEll) (ix.drop nEll) es).map (ix.take nEll ++ ·)
     else none
+  | [], _, _ :: _ => none
   | si :: t, ix, .int k :: es => (idxGo nEll t ix es).map ((intIndex si k).toNat :: ·)
   | _ :: _, [], _ :: _ => none
   | si :: t, i :: ix, e :: es => (idxGo nEll t ix es).map ((e.idx si i).toNat :: ·)
@@ -265,7 +176,9 @@ def shapeDynamicSlice (shape : List Nat) (es : List Entry) : Option (List Nat) :
   let dim := shape.length
   if numInt es > dim then none
   else if es.length - 1 > dim then none
-  else ((es.foldl (shapeDynStep shape (dim - (es.length - 1))) (some ⟨[], 0⟩)).map (·.res)).bind (padZeros (dim - numInt es))
+  else ((es.foldl (shapeDynStep shape (dim - (es.length - 1))) (some ⟨[], 0⟩)).map
+          (fun st => st.res ++ (shape.drop st.shp).take (dim - numInt es - st.res.length))).bind   -- trailing axes kept whole
+        (padZeros (dim - numInt es))
 
 structure IdxSt where
   res : List Nat
@@ -296,16 +209,11 @@ def idxDynStep (shape ix : List Nat) (nEll : Nat) (st : Option IdxSt) (e : Entry
 def dynamicSlice (shape : List Nat) (es : List Entry) (ix : List Nat) : Option (List Nat) :=
   let dim := shape.length
   if es.length - 1 > dim then none
-  else ((es.foldl (idxDynStep shape ix (dim - (es.length - 1))) (some ⟨[], 0, 0⟩)).map (·.res)).bind (padZeros dim)
+  else ((es.foldl (idxDynStep shape ix (dim - (es.length - 1))) (some ⟨[], 0, 0⟩)).map
+          (fun st => st.res ++ (ix.drop st.ind).take (dim - st.res.length))).bind   -- remaining destination indices copied
+        (padZeros dim)
 
 /-! ### view level -/
-
-/-- `view::slice(array, slices...)` packs with `nmtools_tuple{slices...}`: with exactly one argument that is itself a
-    tuple of integers, class template argument deduction copies it, and its parts are read as integer indices. -/
-def ctadCollapse : List Entry → List Entry
-  | [.range (some a) (some b) (some c)] => [.int a, .int b, .int c]
-  | [.range2 (some a) (some b)] => [.int a, .int b]
-  | es => es
 
 /-- the slice indexing view (`view::slice_t`): `none` = construction fails (UB / exception in the shape function) -/
 def sliceView (src : Shape) (es : List Entry) : Option IxView :=
